@@ -152,11 +152,11 @@ PROPS = {
     },
     "C08": {
         "level": "other",
-        "rules": [("SL", 7, None), ("CP", 2, has("smooth_helper")), ("VO", 3, has("var_at_level", "new_last")), ("LAW", 55, None), ("IC", 1, has("repr::wmc::"))],
+        "rules": [("SL", 7, None), ("CP", 2, has("smooth_helper")), ("VO", 3, has("var_at_level", "new_last")), ("LAW", 55, None), ("IC", 1, has("repr::wmc::")), ("LT", 1, has("WmcParams")), ("WT", 5, hasnot("from_litvec")), ("NB", 33, None)],
         "explanation": "Level bookkeeping of smooth_helper: every node built is labelled with var_at_level(current) or with a "
                        "node variable that a dominating test equates with it, children recurse one level down, smooth starts "
                        "at level 0 (SL); the complemented arm is sign-coherent (CP); callers count on smooth(_, num_vars) "
-                       "(SL2). Not decided: equality of the count with the brute-force sum. Added: IC — the weight table, indexed by label, is sized by a label bound (largest label + 1), not by the number of entries of the map it is built from (defect D10, repaired).",
+                       "(SL2). Not decided: equality of the count with the brute-force sum. Added: IC — the weight table, indexed by label, is sized by a label bound (largest label + 1), not by the number of entries of the map it is built from (defect D10, repaired). Added: LT/WT — the weight table the count of the smoothed diagram reads keeps its label indexing (growth only: a resize is guarded by, or takes the maximum with, the current length) and is filled and read entry-for-entry. Added: NB — finite-field weights stay inside u128 for every exported prime and, since the type is generic in its modulus, for every modulus its own addition supports (P <= 2^127), loop bodies and left shifts included.",
     },
     "C10": {
         "level": "proof",
